@@ -247,7 +247,7 @@ Proof.
   - unfold set_cached in H. destruct (lookup_cell (s_cells st) c) as [cl|]; [|inversion H; subst; exact R].
     destruct (Bool.eqb (cl_cached cl) b); inversion H; subst; [exact R|]. simpl. now rewrite clear_obj_reent.
   - unfold set_ref_value in H. destruct (lookup_ref (s_refs st) r) as [[sp w]|]; inversion H; subst; [|exact R].
-    rewrite (fold_reent on_namespace_change).
+    simpl. rewrite (fold_reent on_namespace_change).
     + unfold clear_attr_referrers. simpl. rewrite (fold_reent clear_no_rg); [exact R|].
       intros s a. unfold clear_no_rg. destruct (mem_node (node_of a) (s_nodes s)); [|reflexivity].
       now rewrite fold_clear_trace_reent.
